@@ -24,6 +24,7 @@ META = {
     "level_text": "Lowering: machine-checked for all ASTs of the model (all item kinds, types, where-clauses, goals, clauses): the model's Panic outcomes are unreachable; the model is tied to the code by comparing the error class on generated programs with semantic errors. Parser (LALRPOP automaton + lexer): exploration only (fuzzing), stated as such.",
     "level_note": "Partial by construction: the parser is modelled as 'returns an arbitrary AST or an error' and only fuzzed; native stack exhaustion on inputs nested thousands of levels deep is outside the model (recorded class finding); the AST type builds in that a TraitRef's first argument is a type (established by the three grammar productions that construct TraitRef, monitored statically).",
     "design_ref": "DESIGN.md §4 C24",
+    "bins": ["text"],
     "assumptions": [
         "the hand-written model of lowering.rs/env.rs/program_lowerer.rs is faithful (checked per run: error-class equality on generated ASTs)",
         "parser totality is not proved; only exercised by streams (a)/(b)",
